@@ -1,9 +1,12 @@
-import Avfs.FS.State
+import Avfs.FS.Step
 /-
   Model of vfs/orefafs (orefafs.go, orefafs_internal.go, orefafs_file.go) emulating Linux: one node type, a flat index
   `nodes : absolute path ↦ node` next to the children maps, no permission checks, no symbolic links, no Sub.
-  Transliteration, function by function (the root is registered under the key "" — addressing it as "/" fails, as in
-  the Go code: recorded finding).
+  Transliteration, function by function, of what the code DOES (its defects included): the root is registered under
+  the key "" (addressing it as "/" misses it), MkdirAll links the missing chain deepest first, Rename and Link do not
+  look at the kind of the new parent, children maps are nil until the first addChild (a Rename into such a directory
+  panics), Read / Write slice the content at the handle offset without a bound check.
+  `.panic` / `.hang` are produced exactly where the Go code panics / locks a mutex it already holds.
 -/
 namespace Avfs.Orefa
 open Avfs.Path Avfs.FS
@@ -17,8 +20,14 @@ structure ONode where
   nlink : Int
   id : Nat
   data : Bytes
-  children : List (Bytes × Ino)
+  children : Option (List (Bytes × Ino))     -- `none`: the nil map
   deriving DecidableEq, Repr
+
+def ONode.kids (n : ONode) : List (Bytes × Ino) := n.children.getD []
+/-- len(nd.children) -/
+def ONode.nkids (n : ONode) : Nat := (alKeys n.kids).length
+/-- sorted names of the children map -/
+def ONode.names (n : ONode) : List Bytes := sortBytes (alKeys n.kids)
 
 structure OStore where
   heap : List (Ino × ONode)
@@ -27,6 +36,7 @@ structure OStore where
   lastId : Nat
   deriving DecidableEq, Repr
 
+/-- CurDirFn, CurUserFn, UMaskFn -/
 structure OView where
   cwd : Bytes
   uid : Int
@@ -42,55 +52,53 @@ structure OState where
   deriving DecidableEq, Repr
 
 def OStore.get (s : OStore) (i : Ino) : Option ONode := AL.lookup i s.heap
-def OStore.set (s : OStore) (i : Ino) (n : ONode) : OStore := { s with heap := AL.insert i n s.heap }
+def OStore.set (s : OStore) (i : Ino) (n : ONode) : OStore := { s with heap := AL.insert i n (AL.erase i s.heap) }
 def OStore.at (s : OStore) (p : Bytes) : Option Ino := AL.lookup p s.index
-def OStore.bind (s : OStore) (p : Bytes) (i : Ino) : OStore := { s with index := AL.insert p i s.index }
+def OStore.bind (s : OStore) (p : Bytes) (i : Ino) : OStore := { s with index := AL.insert p i (AL.erase p s.index) }
 def OStore.unbind (s : OStore) (p : Bytes) : OStore := { s with index := AL.erase p s.index }
 
+/-- vfs.Abs: on a relative path the current directory is joined (it is whatever SetCurDir stored) -/
 def absOf (v : OView) (p : Bytes) : Bytes := abs .linux p v.cwd
 
-/-- SplitAbs; on a path without separator the Go slice expression panics -/
+/-- SplitAbs; on a path without separator the Go slice expression panics (`none`) -/
 def splitAbsO (p : Bytes) : Option (Bytes × Bytes) := splitAbs .linux p
-
-inductive Out
-  | ok (v : Val)
-  | err (e : Err)
-  | errN (n : Int) (b : Bytes) (e : Err)
-  | panic
-  | hang
-  deriving DecidableEq, Repr
 
 def isDirAt (s : OStore) (i : Ino) : Bool := match s.get i with | some n => n.isDir | none => false
 
-/-- createNode: locks the parent, allocates, links into the children map and the index -/
+/-- addChild: makes the map when it is nil -/
+def addChildO (s : OStore) (parent : Ino) (name : Bytes) (c : Ino) : OStore :=
+  match s.get parent with
+  | some pn => s.set parent { pn with children := some (AL.insert name c (AL.erase name pn.kids)) }
+  | none => s
+
+/-- delete(parent.children, name): no effect on a nil map -/
+def delChild (s : OStore) (parent : Ino) (name : Bytes) : OStore :=
+  match s.get parent with
+  | some pn => s.set parent { pn with children := pn.children.map (AL.erase name) }
+  | none => s
+
+/-- createNode (createDir / createFile compute the mode): allocates, links into the children map and the index -/
 def createNode (s : OStore) (v : OView) (parent : Ino) (absPath name : Bytes) (isDir : Bool) (perm : Nat) : OStore × Ino :=
   let id := s.lastId + 1
   let nd : ONode := { isDir := isDir, perm := (perm &&& modeMask) &&& (modeMask ^^^ (v.umask &&& modeMask)),
-                      uid := v.uid, gid := v.gid, mtime := none, nlink := 1, id := id, data := [], children := [] }
+                      uid := v.uid, gid := v.gid, mtime := none, nlink := 1, id := id, data := [], children := none }
   let i := s.next
   let s1 : OStore := { s with heap := AL.insert i nd s.heap, next := s.next + 1, lastId := id }
-  let s2 := match s1.get parent with
-    | some pn => s1.set parent { pn with children := AL.insert name i pn.children }
-    | none => s1
-  (s2.bind absPath i, i)
+  ((addChildO s1 parent name i).bind absPath i, i)
 
-/-- node.remove(): children = nil, nlink-- (the content is kept for open handles since the repair) -/
+/-- node.remove(): children = nil, nlink--, the content is dropped when the count reaches 0 -/
 def removeNode (s : OStore) (i : Ino) : OStore :=
   match s.get i with
-  | some n => s.set i { n with children := [], nlink := n.nlink - 1 }
+  | some n => s.set i { n with children := none, nlink := n.nlink - 1, data := if n.nlink - 1 == 0 then [] else n.data }
   | none => s
 
-def delChild (s : OStore) (parent : Ino) (name : Bytes) : OStore :=
-  match s.get parent with
-  | some pn => s.set parent { pn with children := AL.erase name pn.children }
-  | none => s
-
+/-- fillStatFrom -/
 def fillStatO (s : OStore) (i : Ino) (name : Bytes) : Option Info :=
   (s.get i).map fun n =>
-    ⟨name, if n.isDir then 0 else 1, n.perm, n.uid, n.gid, n.nlink,
-     if n.isDir then (alKeys n.children).length else n.data.length, n.id, n.mtime⟩
+    ⟨name, if n.isDir then 0 else 1, n.perm, n.uid, n.gid, n.nlink, if n.isDir then n.nkids else n.data.length, n.id, n.mtime⟩
 
-/-- the `for !parentOk { dirName, _ = SplitAbs(dirName); parent, parentOk = nodes[dirName] }` loop of Mkdir -/
+/-- the `for !parentOk { dirName, _ = SplitAbs(dirName); parent, parentOk = nodes[dirName] }` loop of Mkdir
+    (`none`: SplitAbs panicked on a path without separator) -/
 def ancestorLoop (s : OStore) : Nat → Bytes → Option Ino
   | 0, _ => none
   | fuel + 1, dir =>
@@ -101,6 +109,7 @@ def ancestorLoop (s : OStore) : Nat → Bytes → Option Ino
       | some i => some i
       | none => ancestorLoop s fuel d
 
+/-- Mkdir -/
 def mkdir (s : OStore) (v : OView) (name : Bytes) (perm : Nat) : OStore × Out :=
   if name.isEmpty then (s, .err .ENOENT) else
   let absPath := absOf v name
@@ -117,62 +126,78 @@ def mkdir (s : OStore) (v : OView) (name : Bytes) (perm : Nat) : OStore × Out :
       if !isDirAt s parent then (s, .err .ENOTDIR) else
       ((createNode s v parent absPath fileName true perm).1, .ok .unit)
 
-/-- the ancestor search of MkdirAll: the missing paths (deepest first) and the existing ancestor -/
-def missingChain (s : OStore) : Nat → Bytes → List Bytes → Option (List Bytes × Ino)
-  | 0, _, _ => none
+inductive Chain
+  | found (ds : List Bytes) (parent : Ino)
+  | notDir
+  | panic
+
+/-- the ancestor search of MkdirAll: the missing paths, deepest first, and the existing ancestor -/
+def missingChain (s : OStore) : Nat → Bytes → List Bytes → Chain
+  | 0, _, _ => .panic
   | fuel + 1, dir, acc =>
     match s.at dir with
-    | some i => some (acc, i)
+    | some i => if isDirAt s i then .found acc i else .notDir
     | none =>
       match splitAbsO dir with
-      | none => none
+      | none => .panic
       | some (d, _) => missingChain s fuel d (acc ++ [dir])
 
+/-- MkdirAll: `for _, absPath = range ds { parent = createDir(parent, absPath, fileName, perm) }` walks `ds` in the
+    order it was collected (deepest first), so each shallower directory becomes a CHILD of the deeper one -/
 def mkdirAll (s : OStore) (v : OView) (path : Bytes) (perm : Nat) : OStore × Out :=
   let absPath := absOf v path
   match s.at absPath with
   | some c => if isDirAt s c then (s, .ok .unit) else (s, .err .ENOTDIR)
   | none =>
     match missingChain s (absPath.length + 2) absPath [] with
-    | none => (s, .panic)
-    | some (ds, parent) =>
-      if !isDirAt s parent then (s, .err .ENOTDIR) else
-      -- the missing directories are created from the existing ancestor downwards (since the repair)
-      let (s', _) := ds.reverse.foldl (fun (acc : OStore × Ino) p =>
+    | .panic => (s, .panic)
+    | .notDir => (s, .err .ENOTDIR)
+    | .found ds parent =>
+      let (s', _) := ds.foldl (fun (acc : OStore × Ino) p =>
         match splitAbsO p with
         | some (_, fileName) => createNode acc.1 v acc.2 p fileName true perm
         | none => acc) (s, parent)
       (s', .ok .unit)
 
-def openFile (s : OStore) (v : OView) (name : Bytes) (flag perm : Nat) : OStore × Except Err Handle ⊕ Unit :=
+inductive OpenRes
+  | ok (h : Handle)
+  | err (e : Err)
+  | panic
+  deriving Repr
+
+/-- OpenFile -/
+def openFile (s : OStore) (v : OView) (name : Bytes) (flag perm : Nat) : OStore × OpenRes :=
   let om := toOpenMode flag
   let absPath := absOf v name
-  let mk (nd : Ino) : Handle :=
-    { nd := some nd, name := name, pos := 0, om := om, dirEntries := none, dirNames := none, dirIndex := 0, view := 0 }
+  let mk (nd : Ino) (pos : Nat) : Handle :=
+    { nd := some nd, name := name, pos := pos, om := om, dirEntries := none, dirNames := none, dirIndex := 0, view := 0 }
   match splitAbsO absPath with
-  | none => (s, .inr ())
+  | none => (s, .panic)
   | some (dirName, fileName) =>
     match s.at absPath with
     | none =>
       match s.at dirName with
-      | none => (s, .inl (.error .ENOENT))
+      | none => (s, .err .ENOENT)
       | some parent =>
-        if !isDirAt s parent then (s, .inl (.error .ENOTDIR)) else
-        if om &&& omCreate == 0 then (s, .inl (.error .ENOENT)) else
-        if om &&& omWrite == 0 then (s, .inl (.error .EACCES)) else
+        if !isDirAt s parent then (s, .err .ENOTDIR) else
+        if om &&& omCreate == 0 then (s, .err .ENOENT) else
+        if om &&& omWrite == 0 then (s, .err .EACCES) else
         let (s1, c) := createNode s v parent absPath fileName false perm
-        (s1, .inl (.ok (mk c)))
+        (s1, .ok (mk c 0))
     | some c =>
       match s.get c with
-      | none => (s, .inr ())
+      | none => (s, .panic)
       | some n =>
         if n.isDir then
-          if om &&& omWrite != 0 then (s, .inl (.error .EISDIR)) else (s, .inl (.ok (mk c)))
+          if om &&& omWrite != 0 then (s, .err .EISDIR) else (s, .ok (mk c 0))
         else
-          if om &&& omExcl != 0 then (s, .inl (.error .EEXIST)) else
-          let s1 := if om &&& omTrunc != 0 then s.set c { n with data := [] } else s
-          (s1, .inl (.ok (mk c)))
+          if om &&& omExcl != 0 then (s, .err .EEXIST) else
+          let d := if om &&& omTrunc != 0 then [] else n.data
+          let s1 := if om &&& omTrunc != 0 then s.set c { n with data := d } else s
+          -- O_APPEND: the offset is set to the size ONCE, here
+          (s1, .ok (mk c (if om &&& omAppend != 0 then d.length else 0)))
 
+/-- stat (Stat, Lstat) -/
 def statO (s : OStore) (v : OView) (path : Bytes) : Out :=
   let absPath := absOf v path
   match splitAbsO absPath with
@@ -185,12 +210,14 @@ def statO (s : OStore) (v : OView) (path : Bytes) : Out :=
       | none => .err .ENOENT
       | some p => if isDirAt s p then .err .ENOENT else .err .ENOTDIR
 
+/-- Chdir -/
 def chdir (s : OStore) (v : OView) (dir : Bytes) : OView × Out :=
   let absPath := absOf v dir
   match s.at absPath with
   | none => (v, .err .ENOENT)
   | some c => if !isDirAt s c then (v, .err .ENOTDIR) else ({ v with cwd := absPath }, .ok .unit)
 
+/-- Chmod / Chown / Lchown / Chtimes: index lookup, then the setter -/
 def setAttr (s : OStore) (v : OView) (name : Bytes) (f : ONode → ONode) : OStore × Out :=
   match s.at (absOf v name) with
   | none => (s, .err .ENOENT)
@@ -199,6 +226,7 @@ def setAttr (s : OStore) (v : OView) (name : Bytes) (f : ONode → ONode) : OSto
     | some n => (s.set c (f n), .ok .unit)
     | none => (s, .panic)
 
+/-- Truncate (the modification time is not touched) -/
 def truncate (s : OStore) (v : OView) (name : Bytes) (size : Int) : OStore × Out :=
   match s.at (absOf v name) with
   | none => (s, .err .ENOENT)
@@ -210,6 +238,7 @@ def truncate (s : OStore) (v : OView) (name : Bytes) (size : Int) : OStore × Ou
       if size < 0 then (s, .err .EINVAL) else
       (s.set c { n with data := truncData n.data size.toNat }, .ok .unit)
 
+/-- Remove: parent.mu then child.mu are locked (the same node twice: self-deadlock) -/
 def remove (s : OStore) (v : OView) (name : Bytes) : OStore × Out :=
   let absPath := absOf v name
   match splitAbsO absPath with
@@ -221,25 +250,29 @@ def remove (s : OStore) (v : OView) (name : Bytes) : OStore × Out :=
       match s.get c with
       | none => (s, .panic)
       | some n =>
-        if n.isDir && (alKeys n.children).length != 0 then (s, .err .ENOTEMPTY) else
+        if n.isDir && n.nkids != 0 then (s, .err .ENOTEMPTY) else
         ((delChild (removeNode s c) p fileName).unbind absPath, .ok .unit)
     | _, _ => (s, .err .ENOENT)
 
-/-- removeAll(absPath, node): recursive release of a subtree, index entries included -/
-def removeAllRec : Nat → OStore → Bytes → Ino → OStore
-  | 0, s, _, _ => s
+/-- removeAll(absPath, node): the children MAP of a directory is followed, the index entries deleted are those of
+    the paths composed on the way. `none`: the recursion does not end (the fuel, one more than the number of nodes, is
+    only exhausted when the children maps form a cycle — MkdirAll and Rename can build one) -/
+def removeAllRec : Nat → OStore → Bytes → Ino → Option OStore
+  | 0, _, _, _ => none
   | fuel + 1, s, absPath, i =>
-    let s1 := match s.get i with
+    let s1 : Option OStore := match s.get i with
       | some n =>
         if n.isDir then
-          (sortBytes (alKeys n.children)).foldl (fun acc nm =>
-            match AL.lookup nm n.children with
-            | some c => removeAllRec fuel acc (absPath ++ [SL] ++ nm) c
-            | none => acc) s
-        else s
-      | none => s
-    (removeNode s1 i).unbind absPath
+          n.names.foldl (fun acc nm =>
+            match acc, AL.lookup nm n.kids with
+            | some a, some c => removeAllRec fuel a (absPath ++ [SL] ++ nm) c
+            | acc, _ => acc) (some s)
+        else some s
+      | none => some s
+    s1.map fun s1 => (removeNode s1 i).unbind absPath
 
+/-- RemoveAll: a directory is released by removeAll AND by `child.remove()` (its link count goes down twice);
+    on a cyclic children graph removeAll recurses for ever (`.hang`; in Go: until the stack limit kills the process) -/
 def removeAll (s : OStore) (v : OView) (path : Bytes) : OStore × Out :=
   if path.isEmpty then (s, .ok .unit) else
   let absPath := absOf v path
@@ -248,10 +281,12 @@ def removeAll (s : OStore) (v : OView) (path : Bytes) : OStore × Out :=
   | some (dirName, fileName) =>
     match s.at absPath, s.at dirName with
     | some c, some p =>
-      let s1 := if isDirAt s c then removeAllRec s.next s absPath c else s
-      ((delChild (removeNode s1 c) p fileName).unbind absPath, .ok .unit)
+      match (if isDirAt s c then removeAllRec (s.next + 1) s absPath c else some s) with
+      | none => (s, .hang)
+      | some s1 => ((delChild (removeNode s1 c) p fileName).unbind absPath, .ok .unit)
     | _, _ => (s, .ok .unit)
 
+/-- Link: both nodes are locked BEFORE the kind of the old one is looked at; the new parent may be a file -/
 def link (s : OStore) (v : OView) (o n : Bytes) : OStore × Out :=
   let oAbs := absOf v o
   let nAbs := absOf v n
@@ -264,20 +299,28 @@ def link (s : OStore) (v : OView) (o n : Bytes) : OStore × Out :=
       match s.at nDir with
       | none => (s, .err .ENOENT)
       | some np =>
+        if oc == np then (s, .hang) else
         if isDirAt s oc then (s, .err .EPERM) else
         if (s.at nAbs).isSome then (s, .err .EEXIST) else
-        match s.get oc, s.get np with
-        | some on, some pn =>
-          let s1 := (s.bind nAbs oc).set np { pn with children := AL.insert nFile oc pn.children }
-          (s1.set oc { on with nlink := on.nlink + 1 }, .ok .unit)
-        | _, _ => (s, .panic)
+        let s1 := addChildO (s.bind nAbs oc) np nFile oc
+        match s1.get oc with
+        | some on => (s1.set oc { on with nlink := on.nlink + 1 }, .ok .unit)
+        | none => (s, .panic)
 
-/-- the index rewrite of a directory rename: every key below the old path moves below the new one -/
+/-- the index rewrite of a directory rename: every key below the old path moves below the new one (one pass over the
+    keys present before the loop; when the new path is itself below the old one the Go loop also meets, or not, the
+    keys it inserts: map iteration order, not modelled) -/
 def reindex (idx : List (Bytes × Ino)) (oAbs nAbs : Bytes) : List (Bytes × Ino) :=
   let oRoot := oAbs ++ [SL]
-  (alKeys idx).filterMap fun k =>
-    (AL.lookup k idx).map fun i => if oRoot.isPrefixOf k then (nAbs ++ k.drop oAbs.length, i) else (k, i)
+  (alKeys idx).foldl (fun acc k =>
+    if oRoot.isPrefixOf k then
+      match AL.lookup k idx with
+      | some i => AL.insert (nAbs ++ k.drop oAbs.length) i (AL.erase (nAbs ++ k.drop oAbs.length) (AL.erase k acc))
+      | none => acc
+    else acc) idx
 
+/-- Rename: `nParent.children[nFileName] = oChild` is an assignment to an entry of a nil map when the new parent never
+    had a child (or is a file) -/
 def rename (s : OStore) (v : OView) (o n : Bytes) : OStore × Out :=
   let oAbs := absOf v o
   let nAbs := absOf v n
@@ -292,12 +335,238 @@ def rename (s : OStore) (v : OView) (o n : Bytes) : OStore × Out :=
       match s.get np with
       | none => (s, .panic)
       | some npn =>
-        let s1 := s.set np { npn with children := AL.insert nFile oc npn.children }
+        if npn.children.isNone then (s, .panic) else
+        let s1 := addChildO s np nFile oc
         let s2 := delChild s1 op oFile
         let s3 := (s2.bind nAbs oc).unbind oAbs
         let s4 := if ocDir then { s3 with index := reindex s3.index oAbs nAbs } else s3
         (s4, .ok .unit)
     | _, _, _ => (s, .err .ENOENT)
   | _, _ => (s, .panic)
+
+/-! ### orefafs_file.go -/
+
+/-- node.dirEntries(): sorted infos, nil when empty -/
+def dirEntriesO (s : OStore) (n : ONode) : Option (List Info) :=
+  if n.nkids == 0 then none else
+  some (n.names.filterMap fun nm => (AL.lookup nm n.kids).bind fun c => fillStatO s c nm)
+
+/-- node.dirNames() -/
+def dirNamesO (n : ONode) : Option (List Bytes) := if n.nkids == 0 then none else some n.names
+
+/-- the methods of OrefaFile; differences with MemFile: Read / Write slice `nd.data[f.at:]` (panic beyond the end),
+    a Read that copies nothing is io.EOF whatever the buffer length, Write ignores O_APPEND, WriteAt extends the file
+    for an empty buffer, Stat splits the name given to Open with SplitAbs (panic on a name without separator), Chdir
+    stores that name as it is, Chmod / Chown check nothing -/
+def fileStep (s : OStore) (v : OView) (h : Handle) (op : FOp) : OStore × OView × Handle × Out :=
+  let closedErr : Err := match op with
+    | .stat | .readDir _ | .readdirnames _ => .fileClosing
+    | _ => .closed
+  match op with
+  | .close =>
+    match h.nd with
+    | none => if h.name.isEmpty then (s, v, h, .err .invalid) else (s, v, h, .err .closed)
+    | some _ => (s, v, { h with nd := none, dirEntries := none, dirNames := none }, .ok .unit)
+  | _ =>
+  if (match op with | .writeAt _ off => decide (off < 0) | _ => false) then (s, v, h, .err .negOffset) else
+  if h.name.isEmpty then (s, v, h, .err .invalid) else
+  match h.nd with
+  | none => (s, v, h, .err closedErr)
+  | some i =>
+  match s.get i with
+  | none => (s, v, h, .panic)
+  | some n =>
+  match op with
+  | .read k =>
+    if n.isDir then (s, v, h, .err .EISDIR) else
+    if h.om &&& omRead == 0 then (s, v, h, .err .EBADF) else
+    if h.pos < 0 || h.pos.toNat > n.data.length then (s, v, h, .panic) else
+    let bs := (n.data.drop h.pos.toNat).take k
+    if bs.isEmpty then (s, v, h, .errN 0 [] .eof)
+    else (s, v, { h with pos := h.pos + bs.length }, .ok (.num bs.length bs))
+  | .readAt k off =>
+    if n.isDir then (s, v, h, .err .EISDIR) else
+    if off < 0 then (s, v, h, .err .negOffset) else
+    if h.om &&& omRead == 0 then (s, v, h, .err .EBADF) else
+    if off.toNat > n.data.length then (s, v, h, .errN 0 [] .eof) else
+    let bs := (n.data.drop off.toNat).take k
+    if bs.length < k then (s, v, h, .errN bs.length bs .eof) else (s, v, h, .ok (.num bs.length bs))
+  | .write b =>
+    if n.isDir then (s, v, h, .err .EBADF) else
+    if h.om &&& omWrite == 0 then (s, v, h, .err .EBADF) else
+    if h.pos < 0 || h.pos.toNat > n.data.length then (s, v, h, .panic) else
+    let pos := h.pos.toNat
+    let d' := n.data.take pos ++ b ++ n.data.drop (pos + b.length)
+    (s.set i { n with data := d', mtime := none }, v, { h with pos := h.pos + b.length }, .ok (.num b.length []))
+  | .writeAt b off =>
+    if n.isDir then (s, v, h, .err .EBADF) else
+    if h.om &&& omWrite == 0 then (s, v, h, .err .EBADF) else
+    let pos := off.toNat
+    let d1 := if pos + b.length > n.data.length then n.data ++ List.replicate (pos + b.length - n.data.length) 0 else n.data
+    let d' := d1.take pos ++ b ++ d1.drop (pos + b.length)
+    (s.set i { n with data := d', mtime := none }, v, h, .ok (.num b.length []))
+  | .seek off whence =>
+    if n.isDir then (s, v, h, .ok (.num 0 [])) else
+    let size : Int := n.data.length
+    if whence == 0 then
+      if off < 0 then (s, v, h, .err .EINVAL) else (s, v, { h with pos := off }, .ok (.num off []))
+    else if whence == 1 then
+      if h.pos + off < 0 then (s, v, h, .err .EINVAL)
+      else (s, v, { h with pos := h.pos + off }, .ok (.num (h.pos + off) []))
+    else if whence == 2 then
+      if size + off < 0 then (s, v, h, .err .EINVAL)
+      else (s, v, { h with pos := size + off }, .ok (.num (size + off) []))
+    else (s, v, h, .err .EINVAL)
+  | .truncate size =>
+    if n.isDir then (s, v, h, .err .EINVAL) else
+    if h.om &&& omWrite == 0 then (s, v, h, .err .EINVAL) else
+    if size < 0 then (s, v, h, .err .EINVAL) else
+    (s.set i { n with data := truncData n.data size.toNat, mtime := none }, v, h, .ok .unit)
+  | .stat =>
+    match splitAbsO h.name with
+    | none => (s, v, h, .panic)
+    | some (_, name) =>
+      match fillStatO s i name with
+      | some inf => (s, v, h, .ok (.info inf))
+      | none => (s, v, h, .panic)
+  | .sync => (s, v, h, .ok .unit)
+  | .chmod mode => (s.set i { n with perm := mode &&& modeMask }, v, h, .ok .unit)
+  | .chown uid gid => (s.set i { n with uid := uid, gid := gid }, v, h, .ok .unit)
+  | .chdir =>
+    if !n.isDir then (s, v, h, .err .ENOTDIR) else (s, { v with cwd := h.name }, h, .ok .unit)
+  | .close => (s, v, h, .panic)       -- handled above
+  | .readDir k =>
+    if !n.isDir then (s, v, h, .err .ENOTDIR) else
+    let fresh := k ≤ 0 || h.dirEntries.isNone
+    let listing := if fresh then dirEntriesO s n else h.dirEntries
+    let idx := if fresh then 0 else h.dirIndex
+    if k ≤ 0 then (s, v, { h with dirIndex := 0, dirEntries := none }, .ok (.infos (listing.getD [])))
+    else
+      let l := listing.getD []
+      if idx ≥ l.length then (s, v, { h with dirIndex := 0, dirEntries := none }, .errN 0 [] .eof)
+      else
+        let stop := min (idx + k.toNat) l.length
+        (s, v, { h with dirIndex := stop, dirEntries := listing }, .ok (.infos ((l.take stop).drop idx)))
+  | .readdirnames k =>
+    if !n.isDir then (s, v, h, .err .ENOTDIR) else
+    let fresh := k ≤ 0 || h.dirNames.isNone
+    let listing := if fresh then dirNamesO n else h.dirNames
+    let idx := if fresh then 0 else h.dirIndex
+    if k ≤ 0 then (s, v, { h with dirIndex := 0, dirNames := none }, .ok (.names (listing.getD [])))
+    else
+      let l := listing.getD []
+      if idx ≥ l.length then (s, v, { h with dirIndex := 0, dirNames := none }, .errN 0 [] .eof)
+      else
+        let stop := min (idx + k.toNat) l.length
+        (s, v, { h with dirIndex := stop, dirNames := listing }, .ok (.names ((l.take stop).drop idx)))
+
+/-! ### the composites of vfs.go on OrefaFS and the step function -/
+
+def withStore (st : OState) (r : OStore × Out) : OState × Out := ({ st with store := r.1 }, r.2)
+
+def registerHandle (st : OState) (s : OStore) (r : OpenRes) : OState × Out :=
+  match r with
+  | .panic => (st, .panic)
+  | .err e => ({ st with store := s }, .err e)
+  | .ok h =>
+    ({ st with store := s, handles := AL.insert st.nextHandle h st.handles, nextHandle := st.nextHandle + 1 },
+      .ok (.handle st.nextHandle))
+
+/-- avfs.ReadFile: Open, f.Stat() (its error is ignored, its panic is not), Read until io.EOF -/
+def readFile (s : OStore) (v : OView) (name : Bytes) : Out :=
+  match openFile s v name 0 0 with
+  | (_, .panic) => .panic
+  | (_, .err e) => .err e
+  | (s1, .ok h) =>
+    match (fileStep s1 v h .stat).2.2.2 with
+    | .panic => .panic
+    | _ =>
+      match (fileStep s1 v h (.read 512)).2.2.2 with
+      | .err e => .err e
+      | .panic => .panic
+      | _ =>
+        match h.nd.bind s1.get with
+        | some n => .ok (.bytes n.data)
+        | none => .panic
+
+/-- avfs.ReadDir: Open, f.ReadDir(-1) -/
+def readDir (s : OStore) (v : OView) (name : Bytes) : Out :=
+  match openFile s v name 0 0 with
+  | (_, .panic) => .panic
+  | (_, .err e) => .err e
+  | (s1, .ok h) => (fileStep s1 v h (.readDir (-1))).2.2.2
+
+def step (st : OState) (c : Call) : OState × Out :=
+  let s := st.store
+  let v := st.view
+  match c with
+  | .mkdir p perm => withStore st (mkdir s v p perm)
+  | .mkdirAll p perm => withStore st (mkdirAll s v p perm)
+  | .openFile p flag perm => let (s1, r) := openFile s v p flag perm; registerHandle st s1 r
+  | .create p => let (s1, r) := openFile s v p oRDWR_CREATE_TRUNC 0o666; registerHandle st s1 r
+  | .remove p => withStore st (remove s v p)
+  | .removeAll p => withStore st (removeAll s v p)
+  | .rename o n => withStore st (rename s v o n)
+  | .link o n => withStore st (link s v o n)
+  | .symlink _ _ => (st, .err .EACCES)
+  | .truncate p sz => withStore st (truncate s v p sz)
+  | .chmod p m => withStore st (setAttr s v p fun n => { n with perm := m &&& modeMask })
+  | .chown p u g => withStore st (setAttr s v p fun n => { n with uid := u, gid := g })
+  | .lchown p u g => withStore st (setAttr s v p fun n => { n with uid := u, gid := g })
+  | .chtimes p t => withStore st (setAttr s v p fun n => { n with mtime := some t })
+  | .chdir p => let (v1, o) := chdir s v p; ({ st with view := v1 }, o)
+  | .stat p => (st, statO s v p)
+  | .lstat p => (st, statO s v p)
+  | .readDir p => (st, readDir s v p)
+  | .readFile p => (st, readFile s v p)
+  | .readlink _ => (st, .err .EACCES)
+  | .evalSymlinks _ => (st, .err .EACCES)
+  | .getwd => (st, .ok (.bytes v.cwd))
+  | .writeFile p data perm =>
+    match openFile s v p oWRONLY_CREATE_TRUNC perm with
+    | (_, .panic) => (st, .panic)
+    | (s1, .err e) => ({ st with store := s1 }, .err e)
+    | (s1, .ok h) =>
+      let (s2, _, _, o) := fileStep s1 v h (.write data)
+      ({ st with store := s2 }, match o with | .ok _ => .ok .unit | o => o)
+  | .mkdirTemp dir pat rnd =>
+    let dir := if dir.isEmpty then tempDir else dir
+    match prefixAndSuffix pat with
+    | none => (st, .err .patternSep)
+    | some (pre, suf) =>
+      let name := joinPath dir pre ++ rnd ++ suf
+      match mkdir s v name 0o700 with
+      | (s1, .ok _) => ({ st with store := s1 }, .ok (.bytes name))
+      | (_, o) => (st, o)          -- ENOENT: Stat(dir) is consulted, the error returned has the same kind
+  | .createTemp dir pat rnd =>
+    let dir := if dir.isEmpty then tempDir else dir
+    match prefixAndSuffix pat with
+    | none => (st, .err .patternSep)
+    | some (pre, suf) =>
+      let (s1, r) := openFile s v (joinPath dir pre ++ rnd ++ suf) oRDWR_CREATE_EXCL 0o600
+      registerHandle st s1 r
+  | .sub _ => (st, .err .EACCES)
+  | .setUser uid gid _ => ({ st with view := { v with uid := uid, gid := gid } }, .ok .unit)
+  | .setUMask m => ({ st with view := { v with umask := m } }, .ok .unit)
+  | .file hid op =>
+    match AL.lookup hid st.handles with
+    | none => (st, .err .invalid)
+    | some h =>
+      let (s1, v1, h1, o) := fileStep s v h op
+      ({ st with store := s1, view := v1, handles := AL.insert hid h1 (AL.erase hid st.handles) }, o)
+
+/-- the uid and gid of avfs.NotImplementedIdm.AdminUser(): math.MaxInt -/
+def dummyId : Int := 9223372036854775807
+
+/-- the state `orefafs.New()` builds on Linux: the root node registered under "" (uid 0, gid 0, nlink 0, nil children),
+    /home (0700), /root (0700), /tmp (0777) made by MkdirAll + Chmod with umask 0, current directory "/", umask 022 -/
+def initState (uid gid : Int) : OState :=
+  let root : ONode := { isDir := true, perm := 0o755, uid := 0, gid := 0, mtime := none, nlink := 0, id := 0, data := [], children := none }
+  let st : OState := { store := { heap := [(0, root)], index := [([], 0)], next := 1, lastId := 0 },
+                       view := { cwd := [SL], uid := uid, gid := gid, umask := 0 }, handles := [], nextHandle := 0 }
+  let mk (st : OState) (p : Bytes) (perm : Nat) : OState :=
+    (step (step st (.mkdirAll p perm)).1 (.chmod p perm)).1
+  let st := mk (mk (mk st [47, 104, 111, 109, 101] 0o700) [47, 114, 111, 111, 116] 0o700) [47, 116, 109, 112] 0o777
+  (step st (.setUMask 0o022)).1
 
 end Avfs.Orefa
